@@ -427,6 +427,7 @@ def oracle(case, obs):
     sure = True                # False once the history left the zone the property speaks about
     prev_look = None
     kept_ok = set()
+    wrongly = False            # an ill-formed registration was accepted: only "earlier pairs stay" is judged from here on
     for n, (op, stp) in enumerate(zip(case["ops"], obs["steps"])):
         o = stp["out"]
         where = "after op %d %s" % (n, op[0])
@@ -435,17 +436,19 @@ def oracle(case, obs):
             st, exp = _expect(case, registered + new, typeok)
             if "ok" in o:
                 if st == "ill":
+                    # it should have been refused: what was registered before must stay as it was
                     out.append("ill-formed-registration-accepted (%s) %s" % (",".join(exp), where))
-                    sure = False
+                    wrongly = True
                 elif st == "dontcare":
                     sure = False
                 else:
                     expected = dict(exp)
-                registered = registered + new
+                if st != "ill":
+                    registered = registered + new
                 pairs = [tuple(s[:2]) if s != ["norestr"] else tuple(C14.NOREST) for s in o["ok"]]
                 if len(set(pairs)) != len(pairs):
                     out.append("two-schemes-for-one-pair " + where)
-                if sure:
+                if sure and st != "ill":
                     got = {tuple(s[:2]): s[2] for s in o["ok"] if s != ["norestr"]}
                     if got != expected:
                         miss = [p for p in expected if p not in got]
@@ -453,7 +456,7 @@ def oracle(case, obs):
                         more = [p for p in got if p not in expected]
                         out.append("all-schemes-result-wrong missing=%s wrong-layout=%s unexpected=%s %s" % (miss[:3], wrong[:3], more[:3], where))
             else:
-                if st == "ok" and sure:
+                if st == "ok" and sure and not wrongly:
                     out.append("%s-registration-rejected %s %s" % ("well-formed" if new else "repeated", o["exc"], where))
                 if prev_look is not None and stp["look"] != prev_look:
                     out.append("failed-registration-changed-registry " + where)
@@ -468,7 +471,7 @@ def oracle(case, obs):
                         out.append("%s-scheme-does-not-resolve %s %s" % (kind, list(p), where))
                     elif l["ok"][:2] != list(p) or l["ok"][2] != expected[p]:
                         out.append("%s-scheme-wrong-layout %s %s" % (kind, list(p), where))
-                elif l.get("ok") is not None and "exc" not in l:
+                elif l.get("ok") is not None and "exc" not in l and not wrongly:
                     out.append("unregistered-pair-resolves %s %s" % (list(p), where))
         if op[0] in ("find", "findcls", "keep", "reuse") and sure:
             p = (op[1], op[2])
@@ -663,7 +666,9 @@ def _gen_defect(rng):
     bad = names[-1]
     kind = rng.choice(["unknown-base", "unknown-type", "missing-filtered", "dup-annotation", "dup-builtin",
                        "bad-json", "missing-file", "missing-key", "self-cycle", "same-file-other-spelling",
-                       "no-restrictions-pair", "bad-entry"])
+                       "no-restrictions-pair", "bad-entry",
+                       "annotation-other-version-registered", "annotation-other-version-registered",
+                       "annotation-other-version-builtin", "annotation-other-version-builtin"])
     d = files[bad]["data"]
     good = names[:-1]
     if kind == "unknown-base":
@@ -676,6 +681,14 @@ def _gen_defect(rng):
         d["filtered"] = ["zz_absent"]
     elif kind == "dup-annotation":
         d["annotation-spec"] = files[good[0]]["data"]["annotation-spec"]
+    elif kind == "annotation-other-version-registered":
+        # an annotation that an earlier registration owns, under another (existing or new) version
+        owner = files[good[0]]["data"]
+        d["annotation-spec"] = owner["annotation-spec"]
+        d["version"] = rng.choice([v for v in ["gdc-1.0.0", "gdc-2.0.0", "gdc-9.0.0", "lab-v9"] if v != owner["version"]])
+    elif kind == "annotation-other-version-builtin":
+        d["annotation-spec"] = rng.choice(_builtin_vis())[0]
+        d["version"] = rng.choice(["gdc-9.0.0", "gdc-1.0.1", "lab-v9"])
     elif kind == "dup-builtin":
         d["version"], d["annotation-spec"] = "gdc-1.0.0", rng.choice(_builtin_vis())[0]
     elif kind == "bad-json":
@@ -703,7 +716,11 @@ def _gen_defect(rng):
     rest = [n for n in good if n not in first and files[n]["data"]["extends"] != last_annot]
     # dependencies among the good files: register in generation order so that bases come first or together
     first = [n for n in good if n in first]
-    if first and rng.random() < 0.85:
+    if kind == "annotation-other-version-registered":
+        # the owner of the annotation (and what it needs) is registered first
+        first = [n for n in good if n in first or n == good[0]]
+        rest = [n for n in rest if n != good[0]]
+    if first and (rng.random() < 0.85 or kind == "annotation-other-version-registered"):
         ops.append(["reg", first])
         ops += _ops_probe(rng, [files[n]["data"] for n in first], 1)
     mix = [bad] + ([rng.choice(rest)] if rest and rng.random() < 0.4 else [])
@@ -831,6 +848,14 @@ def corpus():
          "files": dict(files, **{"bad.json": {"kind": "raw", "text": "{"}}),
          "ops": [["reg", ["b.json"]], ["reg", ["bad.json", "a.json"]], ["find", "gdc-1.0.0", "gdc-1.0.0-lab-b"],
                  ["reg", ["a.json"]], ["rt", "gdc-1.0.0", "gdc-1.0.0-lab-b"]]},
+        {"stream": "corpus", "note": "a later definition re-using a registered annotation under another version displaced its owner",
+         "files": dict(files, **{"a2.json": {"kind": "json", "data": dict(A, version="gdc-1.0.1")}}),
+         "ops": [["reg", ["a.json"]], ["reg", ["a2.json"]], ["find", "gdc-1.0.0", "gdc-1.0.0-lab-a"],
+                 ["rt", "gdc-1.0.0", "gdc-1.0.0-lab-a"]]},
+        {"stream": "corpus", "note": "a definition re-using a built-in annotation under a new version displaced the built-in",
+         "files": {"p9.json": {"kind": "json", "data": {"version": "gdc-9.0.0", "annotation-spec": "gdc-1.0.0-public",
+                                                        "extends": "None", "columns": [["b0", "StringColumn"]], "filtered": "None"}}},
+         "ops": [["reg", ["p9.json"]], ["find", "gdc-1.0.0", "gdc-1.0.0-public"], ["rt", "gdc-1.0.0", "gdc-1.0.0-public"]]},
         {"stream": "corpus", "note": "a record parsed under a masked built-in before a registration was refused by the same pair after it "
                                      "(every reload synthesised new mix-in column classes)", "files": files,
          "ops": [["keep", "gdc-1.0.0", "gdc-1.0.0-public", 0], ["reg", ["b.json"]], ["reuse", "gdc-1.0.0", "gdc-1.0.0-public", 0]]},
